@@ -1197,3 +1197,17 @@ Fixpoint first_occ (seen l : nl) : nl :=
   | [] => []
   | x :: r => if mem x seen then first_occ seen r else x :: first_occ (seen ++ [x])%list r
   end.
+
+(* ---- Biomolecule.set_termini: splitting a chain at hidden chain ends ----------------
+   a residue that carries a terminus marker (amino acid with OXT, nucleotide with H3T / a
+   name ending in 3) without being the chain's last residue ends a strand: the residues up
+   to and including it move to a new chain.  [mark] = "ends a strand". *)
+Section Split.
+  Variable A : Type.
+  Variable mark : A -> bool.
+  Fixpoint split_at (cur : list A) (rs : list A) : list (list A) :=
+    match rs with
+    | [] => match cur with [] => [] | _ => [cur] end
+    | r :: rest => if mark r then (cur ++ [r])%list :: split_at [] rest else split_at (cur ++ [r])%list rest
+    end.
+End Split.
